@@ -104,35 +104,54 @@ Qed.
 Notation send_v2 := (send_v2 digest deq).
 Notation send_final := (send_final digest deq).
 
+Definition is_keep (a : ack digest) : bool := match a with AKeep _ => true | _ => false end.
+
 Lemma send_final_sound : forall as_ size mine, send_final size mine as_ = true ->
   exists pre d rest, as_ = pre ++ AFinal digest size :: ADigest digest d :: rest /\ d = mine
-    /\ Forall (fun a => exists s, a = AFinal digest s /\ (s < size)%Z) pre.
+    /\ Forall (fun a => a = AKeep digest \/ exists s, a = AFinal digest s /\ (s < size)%Z) pre.
 Proof.
   induction as_ as [|a as_ IH]; intros size mine S; cbn [Protocol.send_final] in S; [discriminate|].
-  destruct a as [l s|s|d|]; try discriminate.
-  destruct (s >? size)%Z eqn:G; [discriminate|].
-  destruct (s =? size)%Z eqn:E.
-  - destruct as_ as [|[l2 s2|s2|d2|] rest]; try discriminate.
-    apply deq_spec in S. apply Z.eqb_eq in E. subst s.
-    exists [], d2, rest. repeat split; auto.
+  destruct a as [l s|s|d| |]; try discriminate.
+  - destruct (s >? size)%Z eqn:G; [discriminate|].
+    destruct (s =? size)%Z eqn:E.
+    + destruct as_ as [|[l2 s2|s2|d2| |] rest]; try discriminate.
+      apply deq_spec in S. apply Z.eqb_eq in E. subst s.
+      exists [], d2, rest. repeat split; auto.
+    + destruct (IH size mine S) as (pre & d & rest & -> & Ed & F).
+      exists (AFinal digest s :: pre), d, rest. repeat split; auto.
+      constructor; [|exact F]. right. exists s. split; [reflexivity|].
+      apply Z.eqb_neq in E. rewrite Z.gtb_ltb in G. apply Z.ltb_ge in G. lia.
   - destruct (IH size mine S) as (pre & d & rest & -> & Ed & F).
-    exists (AFinal digest s :: pre), d, rest. repeat split; auto.
-    constructor; [|exact F]. exists s. split; [reflexivity|].
-    apply Z.eqb_neq in E. rewrite Z.gtb_ltb in G. apply Z.ltb_ge in G. lia.
+    exists (AKeep digest :: pre), d, rest. repeat split; auto.
 Qed.
 
-Theorem send_v2_sound : forall sent as_ size mine, send_v2 size mine sent as_ = true ->
-  exists facks rest, as_ = facks ++ rest /\ length facks = length sent
-    /\ Forall2 (fun a n => exists s, a = AFrame digest n s) facks sent
+Theorem send_v2_sound : forall as_ sent size mine, send_v2 size mine sent as_ = true ->
+  exists facks rest, as_ = facks ++ rest
+    /\ Forall2 (fun a n => exists s, a = AFrame digest n s) (filter (fun a => negb (is_keep a)) facks) sent
     /\ send_final size mine rest = true.
 Proof.
-  induction sent as [|n sent IH]; intros as_ size mine S; cbn [Protocol.send_v2] in S.
-  - exists [], as_. repeat split; auto.
-  - destruct as_ as [|[l s|s|d|] rest]; try discriminate.
-    destruct (l =? n)%Z eqn:E; [|discriminate]. apply Z.eqb_eq in E. subst l.
-    destruct (IH rest size mine S) as (facks & rest' & -> & L & F & Fin).
-    exists (AFrame digest n s :: facks), rest'. repeat split; simpl; auto.
-    constructor; [exists s; reflexivity|exact F].
+  induction as_ as [|a as_ IH]; intros sent size mine S.
+  - destruct sent; cbn in S; [|discriminate]. exists [], []. repeat split; auto. constructor.
+  - destruct sent as [|n sent].
+    + exists [], (a :: as_). repeat split; [constructor|]. destruct a; exact S.
+    + cbn [Protocol.send_v2] in S. destruct a as [l s|s|d| |]; try discriminate.
+      * destruct (l =? n)%Z eqn:E; [|discriminate]. apply Z.eqb_eq in E. subst l.
+        destruct (IH sent size mine S) as (facks & rest' & -> & F & Fin).
+        exists (AFrame digest n s :: facks), rest'. repeat split; auto.
+        cbn [filter is_keep negb]. constructor; [exists s; reflexivity|exact F].
+      * destruct (IH (n :: sent) size mine S) as (facks & rest' & -> & F & Fin).
+        exists (AKeep digest :: facks), rest'. repeat split; auto.
+Qed.
+
+Notation send_v1 := (send_v1 digest deq).
+Theorem send_v1_sound : forall sent as_ mine, send_v1 mine sent as_ = true ->
+  exists d rest, as_ = map (AFinal digest) sent ++ ADigest digest d :: rest /\ d = mine.
+Proof.
+  induction sent as [|n sent IH]; intros as_ mine S; cbn [Protocol.send_v1] in S.
+  - destruct as_ as [|[l s|s|d| |] rest]; try discriminate. apply deq_spec in S. exists d, rest. auto.
+  - destruct as_ as [|[l s|s|d| |] rest]; try discriminate.
+    destruct (s =? n)%Z eqn:E; [|discriminate]. apply Z.eqb_eq in E. subst s.
+    destruct (IH rest mine S) as (d & rest' & -> & Ed). exists d, rest'. auto.
 Qed.
 
 End ProtocolProofs.
